@@ -207,3 +207,35 @@ Proof.
     destruct (grow_isolated st1 (OExtendSeq n b oc) n R1 eq_refl k ltac:(lia) ltac:(lia)) as (A & B).
     destruct (keeps_all st st1 W K1 k Hk) as (A1 & B1). split; congruence.
 Qed.
+
+(* ---------------------------------------------------------------- Tractogram.apply_affine(lazy=False) *)
+(* fix 3ae30612: `if self.streamlines._is_view or self.streamlines.is_sliced_view:` takes the
+   element-by-element branch; is_sliced_view = (_lengths.sum() != _data.shape[0]) *)
+Definition affine_elementwise (st : state) (c : nat) : bool :=
+  let s := getseq st c in
+  is_view s || negb (Z.of_nat (sum (lens s)) =? cap (getbuf (heap st) (sbuf s)))%Z.
+
+(* for EVERY view (a slice, a list index with or without repeats, a mask, the whole-range view t[:],
+   the view constructor) the element-wise branch runs: `for i: streamlines[i] = f(streamlines[i])`,
+   i.e. OOp c f true.  It alters exactly the elements the view contains — an element listed k times is
+   transformed k times, in every object that holds that very array — and nothing else. *)
+Theorem tapply_affine_view st c f dt : reachable st -> is_live st c = true ->
+  is_view (getseq st c) = true -> offs (getseq st c) <> [] ->
+  affine_elementwise st c = true /\
+  let st' := fst (step st (OOp c f true dt)) in
+  seqs st' = seqs st /\
+  forall j q, j < length (seqs st) -> q < length (offs (getseq st j)) ->
+    (sbuf (getseq st j) = sbuf (getseq st c) -> In (cell st j q) (pairs (getseq st c)) ->
+       0 < occ (cell st j q) (pairs (getseq st c)) /\
+       V st' j q = iter (occ (cell st j q) (pairs (getseq st c))) (map (apply_fn f)) (V st j q)) /\
+    (sbuf (getseq st j) <> sbuf (getseq st c) \/ ~ In (cell st j q) (pairs (getseq st c)) ->
+       V st' j q = V st j q).
+Proof.
+  intros R L Hv NE. split; [unfold affine_elementwise; rewrite Hv; reflexivity|].
+  destruct (inplace_cells st c f dt R L NE) as (_ & S' & H). cbv zeta in *.
+  split; [exact S'|]. intros j q Hj Hq. rewrite (H j q Hj Hq). split.
+  - intros E Hin. rewrite E, Nat.eqb_refl. split; [apply occ_pos; auto|reflexivity].
+  - intros [N|N].
+    + apply Nat.eqb_neq in N. rewrite N. reflexivity.
+    + destruct (_ =? _); [|reflexivity]. rewrite occ_zero by auto. reflexivity.
+Qed.
